@@ -172,6 +172,10 @@ def one_case(rec, tap, rng, cid):
     travel = truth["travel"]
     span = truth["span"]
     t_cp, t_e = (1e-4, 1e-4) if noisy else (1e-9, 1e-8)
+    # (twins that stopped short of the minimum agree where they were fitted;
+    #  outside the fitted range the model extrapolates and amplifies the
+    #  termination noise of the parameters)
+    inrange_only = False
     if not noisy:
         # the strict noise-free tolerances presuppose that both runs reached
         # the exact (zero residual) minimum; if the optimiser stopped before
@@ -192,6 +196,7 @@ def one_case(rec, tap, rng, cid):
             #  semantic breaks give several per cent at least: a wrong
             #  exponent is 5 % for k = 0.9)
             t_cp, t_e = 1e-2, 1e-2
+            inrange_only = True
         if nelder:
             # Nelder-Mead reaches 1e-8 on noise-free data when it converges
             # (C01) but may stop early on its absolute tolerances
@@ -268,7 +273,12 @@ def one_case(rec, tap, rng, cid):
     de = abs(pa["E"].value * k ** p_exp / pb["E"].value - 1)
     xa = np.asarray(ia["fit"])
     xb = np.asarray(ib["fit"])
-    dfit = float(np.nanmax(np.abs(xa - xb))) / span
+    if inrange_only and np.array_equal(np.isnan(xa), np.isnan(xb)):
+        rec.event("unconverged twins: fit column compared inside the fitted "
+                  "range")
+        dfit = float(np.nanmax(np.abs(xa - xb)[mb])) / span
+    else:
+        dfit = float(np.nanmax(np.abs(xa - xb))) / span
     tag = "noisy" if noisy else "noise-free"
     rec.maximum("%s: contact point difference / travel" % tag, dcp)
     rec.maximum("%s: |E_k k^p / E_1 - 1|" % tag, de)
